@@ -10,8 +10,9 @@ CONSTANTS
   B = 1  TXMax = 2
   Inline = FALSE  BatchTX = FALSE  Drops = TRUE
   ScrubTxLen = TRUE  ResetRawSA = TRUE  BothOnHandoff = FALSE
+  ClearHdr = TRUE  TruncRelease = TRUE
   ResetSlot = TRUE  Opts <- OAll
 SPECIFICATION Spec
 SYMMETRY SymClients
-INVARIANTS ReplyOptIsOwn SlotIsZeroBetweenRequests TypeOK SingleOwner ReleaseOnce ReplyIsOwn SilentStaysSilent AtMostOneSend LeaseBound QuiescedIff BurstBound HandoffClean FreeIsScrubbed
+INVARIANTS ReplyOptIsOwn SlotIsZeroBetweenRequests TypeOK SingleOwner ReleaseOnce ReplyIsOwn SilentStaysSilent AtMostOneSend LeaseBound QuiescedIff BurstBound HandoffClean FreeIsScrubbed NoHeldSlabs ReplyHeaderIsOwn
 CHECK_DEADLOCK FALSE
